@@ -235,6 +235,21 @@ mk B14; d=$D
 edit "$d/stats/ttest.go" 's.replace("\tcase LocationLess:\n\t\tp = dist.CDF(t)", "\tcase LocationLess:\n\t\tp = 1 - dist.CDF(t)")'
 expect B14 "$d" C04 tie_failed tie_newTTestResult
 
+echo "== H9 harmless: QuantileCI's greedy loop with the right step first (lp < rp) and accum = accum + ..."
+mk H9; d=$D
+edit "$d/stats/quantileci.go" 's.replace("\t\t\tif lp >= rp { // Left-bias\n\t\t\t\taccum += lp", "\t\t\tif !(lp < rp) { // Left-bias\n\t\t\t\taccum = accum + lp").replace("\t\tif r <= l {\n", "\t\tif l >= r {\n")'
+expect H9 "$d" C11 ok
+
+echo "== B15 breaking: the greedy loop prefers the right neighbour on ties (lp > rp)"
+mk B15; d=$D
+edit "$d/stats/quantileci.go" 's.replace("if lp >= rp { // Left-bias", "if lp > rp {")'
+expect B15 "$d" C11 tie_failed tie_QuantileCI_small_fuel
+
+echo "== B16 breaking: the normal branch keeps an empty band when r == l (fix 24cd30f undone in part)"
+mk B16; d=$D
+edit "$d/stats/quantileci.go" 's.replace("\t\tif r <= l {\n", "\t\tif r < l {\n")'
+expect B16 "$d" C11 tie_failed tie_QuantileCI_normal
+
 if [ $FULL = 1 ]; then
   echo "== full check on B1: both ties report (correspondence finds a failing input)"
   out=$(VERIF_REPO="$B1" bin/check C13 quick 2>&1); rc=$?
